@@ -227,7 +227,7 @@ func run1(t *testing.T, c Case) (res Result) {
 			}
 		}()
 		ttl := time.Duration(0)
-		if c.Scenario == "expiry" || c.Scenario == "expiry-then-commit" || c.Scenario == "expiry-snapshot" {
+		if c.Scenario == "expiry" || c.Scenario == "expiry-then-commit" || c.Scenario == "expiry-snapshot" || (c.Scenario == "release-during-forwarded-apply" && c.Variant == 2) {
 			ttl = 2 * time.Second
 		}
 		shortRetention = c.Scenario == "expiry-snapshot"
@@ -669,7 +669,9 @@ func run1(t *testing.T, c Case) (res Result) {
 		case "release-during-forwarded-apply":
 			// The lock is released (its owner's other connection sends DELETE /halt) or expires while the primary's
 			// handler is in the middle of a forwarded transaction: after it found the lock held, before the file enters
-			// the log. Variant 1: a local writer on the primary is waiting for its turn too. The former holder can no
+			// the log. Variant 1: a local writer on the primary is waiting for its turn too. Variant 2: the lock's life runs
+			// out in that window and the primary's own monitor expires it. Variant 3: the release lands inside the
+			// handler's lock check itself, right before its attempt to pin the lock. The former holder can no
 			// longer publish: either the release takes effect first and the forwarded transaction is refused, or the
 			// transaction is published whole and the release (and the writer) come after it; the primary's log,
 			// position and files are consistent either way and nothing that was acknowledged is lost.
@@ -685,9 +687,14 @@ func run1(t *testing.T, c Case) (res Result) {
 					return
 				}
 				fired = true
+				if c.Variant == 2 {
+					// the holder's file takes its time: the lock's life (2 s) runs out and the primary's own expiry
+					// monitor comes round while the request is in this window
+					time.Sleep(9 * time.Second)
+				}
 				go func() {
 					defer close(done)
-					if id := P.DB("db").VerifHaltLockID(); id != 0 {
+					if id := P.DB("db").VerifHaltLockID(); id != 0 && c.Variant < 2 {
 						P.DB("db").ReleaseHaltLock(context.Background(), id)
 					}
 					if c.Variant == 1 {
@@ -710,9 +717,40 @@ func run1(t *testing.T, c Case) (res Result) {
 				releasedBeforeRename = P.DB("db").VerifHaltLockID() == 0
 			}
 			defer func() { pOSHook = nil }()
+			if c.Variant == 3 && w.wal {
+				// (a WAL commit that the primary refuses stops the holder by design: only the rollback-journal mode tells the
+				// application, which is what the oracle below reads)
+				_ = w.release()
+				res.Class = "n/a"
+				return
+			}
+			if c.Variant == 3 {
+				// the release lands inside the handler's own lock check: right before the attempt to pin the lock
+				pOSHook = nil
+				fired = true
+				close(done)
+				twelve := map[*litefs.RWMutex]bool{} // the SQLite locks of every node's database: the pin's mutex is none of them
+				for _, n := range []*lab.Node{P, R, w.R2} {
+					for _, l := range litefs.VerifLockTypes {
+						twelve[n.DB("db").VerifMutex(l)] = true
+					}
+				}
+				hit := false
+				litefs.VerifSetHook(func(site string, obj any, a int64, b bool) {
+					g, ok := obj.(*litefs.RWMutexGuard)
+					if hit || site != "rw.tryrlock" || !ok || twelve[g.VerifMutex()] || P.DB("db").VerifHaltLockID() == 0 {
+						return
+					}
+					hit = true
+					P.DB("db").ReleaseHaltLock(context.Background(), P.DB("db").VerifHaltLockID())
+					releasedBeforeRename = true
+				})
+				defer litefs.VerifSetHook(nil)
+			}
 			before := posOf(P)
 			ok, terr, step := w.txOn(R, 3, []uint32{2})
 			pOSHook = nil
+			litefs.VerifSetHook(nil)
 			if !fired {
 				res.Harness = "the forwarded file never reached the primary's log directory"
 				return
@@ -1388,6 +1426,7 @@ func TestCheck(t *testing.T) {
 			Case{Scenario: "acquire-timeout", WAL: wal}, Case{Scenario: "expiry-snapshot", WAL: wal}, Case{Scenario: "holder-promoted", WAL: wal},
 			Case{Scenario: "halt-over-hot-journal", WAL: wal},
 			Case{Scenario: "release-during-forwarded-apply", WAL: wal, Variant: 0}, Case{Scenario: "release-during-forwarded-apply", WAL: wal, Variant: 1},
+			Case{Scenario: "release-during-forwarded-apply", WAL: wal, Variant: 2}, Case{Scenario: "release-during-forwarded-apply", WAL: wal, Variant: 3},
 			Case{Scenario: "release-during-commit", WAL: wal, Variant: 0}, Case{Scenario: "release-during-commit", WAL: wal, Variant: 1}, Case{Scenario: "release-during-commit", WAL: wal, Variant: 2})
 		for v := 0; v < 18; v++ {
 			cases = append(cases, Case{Scenario: "tx-matrix", WAL: wal, Variant: v})
